@@ -1,25 +1,67 @@
 #!/usr/bin/env python3
-# usage: bounded_parse.py <PROP> <known_findings> <out.txt>  -- turns BOUNDED-FAIL lines into VIOLATION / KNOWN-FINDING lines
-import sys,re,json,os
-prop,known,out=sys.argv[1:4]
-kf=[l for l in open(known)] if os.path.exists(known) else []
-seen={}
+# usage: bounded_parse.py <PROP> <known_findings> <out.txt>
+# Turns the BOUNDED-FAIL lines of a bounded harness run into VIOLATION / KNOWN-FINDING lines, one per kind of
+# failure, and writes a replay file with the failing input (and, where a replay test exists, the command that
+# re-runs exactly that input against the real code).
+import sys, re, json, os
+
+prop, known, out = sys.argv[1:4]
+kf = [l for l in open(known)] if os.path.exists(known) else []
+root = os.environ.get('VERIF_REPLAY_ROOT', '/verif/replays')
+seen = {}
+
+
+def kind_of(msg, dist):
+    if 'byteCopy' in msg:
+        return 'bytecopy'
+    if any(x in msg for x in ('header written', 'read back', 'writeTo', 'BFINAL is', 'code length code is neither')):
+        return 'whdr'
+    if ('Generate' in msg and 'GenerateForHeader' not in msg) or 'Kraft' in msg or ('gets length' in msg):
+        return 'huff'
+    if dist:
+        return 'hdr'
+    if 'code length code' in msg or 'GenerateForHeader' in msg or 'clcOK' in msg:
+        return 'clc'
+    return 'dist'
+
+
 for line in open(out):
-    m=re.search(r'BOUNDED-FAIL lens=\[([0-9,]*)\] prefill=(\d): (.*)',line.strip())
-    if not m: continue
-    lens,pf,msg=m.groups()
-    dist=''
+    m = re.search(r'BOUNDED-FAIL lens=\[([0-9,]*)\] prefill=(\d+): (.*)', line.strip())
+    if not m:
+        continue
+    lens, pf, msg = m.groups()
+    dist = ''
     if ' | dist=[' in msg:
-        msg,dist=msg.split(' | dist=[',1); dist=dist.rstrip(']')
-    cls=re.sub(r'0x[0-9a-f]+|[0-9]+','N',msg)[:70]
-    if cls in seen: continue
-    seen[cls]=1
-    kind='hdr' if dist else ('clc' if ('code length code' in msg or 'GenerateForHeader' in msg or 'clcOK' in msg) else 'dist')
-    name='bounded_%stab_'%kind+re.sub(r'[^A-Za-z]+','_',cls)[:50]
-    path='%s/%s/%s.json'%(os.environ.get('VERIF_REPLAY_ROOT','/verif/replays'),prop,name)
-    os.makedirs(os.path.dirname(path),exist_ok=True)
-    json.dump({"property":prop,"obligation":"bounded[%stab]: "%kind+cls,"failing_input":({"literal_length_code_lengths":lens,"distance_code_lengths":dist,"multi_symbol_mode":int(pf)} if kind=="hdr" else {("code_length_code_lengths" if kind=="clc" else "distance_code_lengths"):lens,"prefill":int(pf)}),"message":msg,
-      "replay_cmd":"VERIF_BOUNDED_KIND=%s VERIF_BOUNDED_LENS=%s VERIF_BOUNDED_DIST=%s VERIF_BOUNDED_PREFILL=%s /verif/tools/bounded_replay.sh"%(kind,lens,dist,pf)},open(path,'w'),indent=1)
-    isknown=any(l.startswith('finding:') and ('property=%s '%prop) in l and cls in l for l in kf)
-    if isknown: print("KNOWN-FINDING: property=%s bounded[disttab] %s"%(prop,cls))
-    else: print("VIOLATION property=%s replay=%s"%(prop,path))
+        msg, dist = msg.split(' | dist=[', 1)
+        dist = dist.rstrip(']')
+    cls = re.sub(r'0x[0-9a-f]+|[0-9]+', 'N', msg)[:70]
+    if cls in seen:
+        continue
+    seen[cls] = 1
+    kind = kind_of(msg, dist)
+    name = 'bounded_%s_' % kind + re.sub(r'[^A-Za-z]+', '_', cls)[:50]
+    path = '%s/%s/%s.json' % (root, prop, name)
+    os.makedirs(os.path.dirname(path), exist_ok=True)
+    if kind == 'hdr':
+        inp = {"literal_length_code_lengths": lens, "distance_code_lengths": dist, "multi_symbol_mode": int(pf)}
+    elif kind == 'whdr':
+        inp = {"literal_length_code_lengths": lens, "distance_code_lengths": dist, "start_bit_offset_index": int(pf)}
+    elif kind == 'clc':
+        inp = {"code_length_code_lengths": lens, "prefill": int(pf)}
+    elif kind == 'huff':
+        inp = {"histogram": lens, "length_limit": int(pf)}
+    elif kind == 'bytecopy':
+        inp = {"curr_dist_length": lens}
+    else:
+        inp = {"distance_code_lengths": lens, "prefill": int(pf)}
+    rep = {"property": prop, "obligation": "bounded[%s]: %s" % (kind, cls), "failing_input": inp, "message": msg}
+    if kind in ('dist', 'clc', 'hdr', 'huff'):
+        rep["replay_cmd"] = "VERIF_BOUNDED_KIND=%s VERIF_BOUNDED_LENS=%s VERIF_BOUNDED_DIST=%s VERIF_BOUNDED_PREFILL=%s /verif/tools/bounded_replay.sh" % (kind, lens, dist, pf)
+    else:
+        rep["replay_note"] = "re-run tools/bounded.sh: the harness is deterministic (fixed seed) and reports this input first"
+    json.dump(rep, open(path, 'w'), indent=1)
+    isknown = any(l.startswith('finding:') and ('property=%s ' % prop) in l and cls in l for l in kf)
+    if isknown:
+        print("KNOWN-FINDING: property=%s bounded[%s] %s" % (prop, kind, cls))
+    else:
+        print("VIOLATION property=%s replay=%s" % (prop, path))
